@@ -42,6 +42,7 @@ class _Future(Future):
         super(_Future, self).__init__()
         self._me_done_callbacks = []
         self._me_lock = RLock()
+        self._me_cancelling = False
 
     def _me_invoke_callbacks(self):
         for callback in self._me_done_callbacks:
@@ -70,14 +71,31 @@ class _Future(Future):
                 return True
             if self.done():
                 return False
-            if not self._me_cancel():
-                return False
+            self._me_cancelling = True
+            try:
+                if not self._me_cancel():
+                    return False
+            finally:
+                self._me_cancelling = False
             out = super(_Future, self).cancel()
             if out:
                 self.set_running_or_notify_cancel()
         if out:
             self._me_invoke_callbacks()
         return out
+
+    def _me_delegate_cancelled(self):
+        # The future we depend on has been cancelled.  If that happened on behalf
+        # of our own cancel(), it completes the job itself; otherwise someone else
+        # cancelled it and we have to end up cancelled too, rather than staying
+        # pending for ever.
+        with self._me_lock:
+            if self._me_cancelling or self.done():
+                return
+            if not super(_Future, self).cancel():
+                return
+            self.set_running_or_notify_cancel()
+        self._me_invoke_callbacks()
 
     def _me_cancel(self):
         raise NotImplementedError(
